@@ -24,11 +24,29 @@ def run(c):
             for k, exm in enumerate(exs[:5]):
                 ln = exm.get("line", 0) - 1
                 if 0 <= ln < len(srcs) and srcs[ln].strip():
-                    # every identifier gets a value and the result is observed through the host
-                    prog = "var " + ",".join("v%d=%d" % (i, i + 2) for i in range(1, 40)) + ",x0;try{" + srcs[ln] + "}catch(e){h1(String(e))}h0(x0)"
-                    w = os.path.join(c.outdir, "corrwitness%d.json" % k)
-                    json.dump({"input": prog, "options": {"KeepVarNames": "true"}, "strict": False}, open(w, "w"))
-                    c.tool("jsoracle", ["-witness", w], sub="corr-search-%d" % k, count=False)
+                    # every identifier gets a value and the result is observed through the host; several assignments of
+                    # truthy / falsy values, since a mis-grouped && / || / ?: only shows for some of them
+                    for variant in range(6):
+                        vals = []
+                        for i in range(1, 40):
+                            if variant == 0:
+                                v = i + 2
+                            elif variant == 1:
+                                v = 0 if i % 2 else i + 2
+                            elif variant == 2:
+                                v = i + 2 if i % 2 else 0
+                            elif variant == 3:
+                                v = 0
+                            else:
+                                v = (i * 7 + variant * 3) % 5
+                            vals.append("v%d=%d" % (i, v))
+                        fdecl = "function f1(x){h2('f1',x);return x}function f2(x){h2('f2',x);return x?0:1}"
+                        prog = fdecl + "var " + ",".join(vals) + ",x0;try{" + srcs[ln] + "}catch(e){h1(String(e))}h0(x0," + ",".join("v%d" % i for i in range(1, 6)) + ")"
+                        w = os.path.join(c.outdir, "corrwitness%d_%d.json" % (k, variant))
+                        json.dump({"input": prog, "options": {"KeepVarNames": "true"}, "strict": False}, open(w, "w"))
+                        c.tool("jsoracle", ["-witness", w], sub="corr-search-%d-%d" % (k, variant), count=False)
+                        if c.new_violations:
+                            break
                     if c.new_violations:
                         break
         ex = res.get("extra") or {}
